@@ -8,7 +8,7 @@ src=/tmp/seedout/$id
 wt=/tmp/wt/confirm-$id-$k
 meta=$src/meta$k.json
 [ -f "$meta" ] || { echo "no meta"; exit 2; }
-base=$(git -C /repo rev-list --max-parents=0 HEAD | tail -1)
+base=${SEED_BASE:-$(git -C /repo rev-list --max-parents=0 HEAD | tail -1)}
 git -C /repo worktree add -q --detach "$wt" "$base" || exit 2
 cleanup(){ git -C /repo worktree remove --force "$wt" >/dev/null 2>&1; }
 trap cleanup EXIT
@@ -31,15 +31,15 @@ echo "id=$id k=$k suite_ok=$suite_ok demo_with_change_rc=$rc_with demo_without_r
 if [ "$suite_ok" = true ] && [ $rc_with -ne 0 ] && [ $rc_without -eq 0 ]; then
   d=/verif/seeded/$out; mkdir -p $d
   cp "$src/patch$k.diff" $d/patch.diff; cp "$demo" $d/demo_test.go
-  python3 - "$meta" "$d/meta.json" "$pkgdir" "$runpat" <<'PY'
+  python3 - "$meta" "$d/meta.json" "$pkgdir" "$runpat" "$base" <<'PY'
 import json,sys
 m=json.load(open(sys.argv[1]))
 m['confirmed_by']={'what_i_ran':[
- 'git worktree of the pinned base commit; git apply patch.diff; go build ./...',
+ 'git worktree of commit %s; git apply patch.diff; go build ./...'%sys.argv[5],
  'go test -vet=off -count=1 ./... (whole suite) with the change: passes (Test_fastUpstream flaky case ignored)',
  'demo placed in %s as zz_demo_test.go; go test -run "^(%s)$" with the change: FAILS'%(sys.argv[3],sys.argv[4]),
  'git checkout -- . ; same demo without the change: PASSES'],
- 'demo_pkg_dir':sys.argv[3]}
+ 'demo_pkg_dir':sys.argv[3],'base_commit':sys.argv[5]}
 json.dump(m,open(sys.argv[2],'w'),indent=1)
 PY
   echo "KEPT $d"
